@@ -103,6 +103,16 @@ type w12Chunk struct {
 	t   time.Duration
 }
 
+// w12WriteTimeout is one Write call that failed on the write deadline.
+type w12WriteTimeout struct {
+	t       time.Duration
+	paused  time.Duration // how long the upstream was not reading during the write timeout before t
+	dead    bool          // the peer had died silently
+	blocked bool          // the call waited for socket buffer space (otherwise: deadline already over at the call)
+	report  bool
+	idx     int // workload packet carried by the call, -1 if none
+}
+
 type w12Frame struct {
 	kind int // 0 workload packet, 1 would-block report
 	idx  int
@@ -136,6 +146,22 @@ type w12Conn struct {
 	failedReport float64 // byte counts of would-block reports whose Write call failed
 	blockedTO    int     // Write calls that sat on a full socket buffer until the write deadline
 	staleDL      int     // Write calls failed only because the deadline had expired before the call on a healthy conn
+
+	// periods in which the upstream did not read at once (stalled, slow, dead, receive window closed)
+	pauses []w12Interval
+	// trapReport (armed by the scheduler): the upstream closes its receive window at the moment the
+	// sender starts writing a write-error report on this connection (window0: no byte of it is taken)
+	// and keeps it closed until the scheduler lets it read again. A TCP peer may stop reading at any
+	// byte; this picks the one byte boundary at which the sender's report write is in progress.
+	trapReport    bool
+	window0       bool
+	trapped       int
+	loggedTrapped int
+	loggedTimeouts int
+	nWrites       int
+	curReportOn   bool    // a Write call carrying a write-error report is in progress
+	curReport     float64 // its value
+	timeouts      []w12WriteTimeout
 
 	// scheduler-side parse state
 	parseOff    int
@@ -179,6 +205,45 @@ func (c *w12Conn) noteFail(p []byte, n int) {
 	}
 }
 
+// pauseLocked opens / closes the current "upstream is not reading at once" period.
+func (c *w12Conn) pauseLocked(on bool) {
+	open := len(c.pauses) > 0 && c.pauses[len(c.pauses)-1].to < 0
+	switch {
+	case on && !open:
+		c.pauses = append(c.pauses, w12Interval{c.now(), -1})
+	case !on && open:
+		c.pauses[len(c.pauses)-1].to = c.now()
+	}
+}
+
+// pausedLocked: total time within [from, to] during which the upstream was not reading at once.
+func (c *w12Conn) pausedLocked(from, to time.Duration) time.Duration {
+	var sum time.Duration
+	for _, iv := range c.pauses {
+		a, b := iv.from, iv.to
+		if b < 0 || b > to {
+			b = to
+		}
+		if a < from {
+			a = from
+		}
+		if b > a {
+			sum += b - a
+		}
+	}
+	return sum
+}
+
+func (c *w12Conn) noteTimeout(p []byte, blocked, report bool) {
+	now := c.now()
+	idx := -1
+	if len(p) >= pktHeadLen+w12MinPayload && bytes.Equal(p[pktHeadLen:pktHeadLen+4], w12Magic[:]) {
+		idx = int(binary.LittleEndian.Uint32(p[pktHeadLen+4:]))
+	}
+	c.timeouts = append(c.timeouts, w12WriteTimeout{t: now, paused: c.pausedLocked(now-c.w.writeTimeout, now),
+		dead: c.dead, blocked: blocked, report: report, idx: idx})
+}
+
 func (c *w12Conn) deliverLocked(p []byte) {
 	c.rd = append(c.rd, p...)
 	c.chunks = append(c.chunks, w12Chunk{end: len(c.rd), t: c.now()})
@@ -189,6 +254,21 @@ func (c *w12Conn) Write(p []byte) (int, error) {
 	defer c.mu.Unlock()
 	n := 0
 	first := true
+	isReport := false
+	if c.nWrites > 0 && len(p) > pktHeadLen && !(len(p) >= pktHeadLen+w12MinPayload && bytes.Equal(p[pktHeadLen:pktHeadLen+4], w12Magic[:])) {
+		if v, err := w12ReportValue(p[pktHeadLen:]); err == nil {
+			isReport = true
+			c.curReportOn, c.curReport = true, v
+			defer func() { c.curReportOn, c.curReport = false, 0 }()
+			if c.trapReport && !c.dead && !c.localClosed && !c.remoteReset {
+				c.trapReport = false
+				c.fast, c.everManual, c.window0 = false, true, true
+				c.pauseLocked(true)
+				c.trapped++
+			}
+		}
+	}
+	c.nWrites++
 	for {
 		if c.localClosed {
 			c.noteFail(p, n)
@@ -205,6 +285,7 @@ func (c *w12Conn) Write(p []byte) (int, error) {
 			if !first {
 				c.blockedTO++
 			}
+			c.noteTimeout(p, !first, isReport)
 			c.noteFail(p, n)
 			return n, w12Timeout{}
 		}
@@ -217,7 +298,11 @@ func (c *w12Conn) Write(p []byte) (int, error) {
 			c.deliverLocked(p[n:])
 			return len(p), nil
 		}
-		if space := c.cap - len(c.buf); space > 0 {
+		space := c.cap - len(c.buf)
+		if c.window0 {
+			space = 0
+		}
+		if space > 0 {
 			k := len(p) - n
 			if k > space {
 				k = space
@@ -296,6 +381,8 @@ func (c *w12Conn) kill() {
 	c.mu.Lock()
 	defer c.mu.Unlock()
 	c.fast, c.everManual, c.dead = false, true, true
+	c.trapReport = false
+	c.pauseLocked(true)
 }
 
 func (c *w12Conn) isDead() bool {
@@ -311,10 +398,12 @@ func (c *w12Conn) setFast(fast bool) {
 		return
 	}
 	c.fast = fast
+	c.pauseLocked(!fast)
 	if !fast {
 		c.everManual = true
 		return
 	}
+	c.window0 = false
 	if len(c.buf) > 0 {
 		c.deliverLocked(c.buf)
 		c.buf = c.buf[:0]
@@ -333,7 +422,30 @@ func (c *w12Conn) pull(n int) int {
 		c.buf = append(c.buf[:0], c.buf[n:]...)
 		c.cond.Broadcast()
 	}
+	if c.window0 { // the upstream reads again (slowly): the window reopens
+		c.window0 = false
+		c.cond.Broadcast()
+	}
 	return n
+}
+
+// arm makes the upstream close its receive window when the next write-error report begins.
+func (c *w12Conn) arm(on bool) {
+	c.mu.Lock()
+	defer c.mu.Unlock()
+	c.trapReport = on
+}
+
+func (c *w12Conn) trappable() bool {
+	c.mu.Lock()
+	defer c.mu.Unlock()
+	return !c.trapReport && !c.dead && c.fast && !c.localClosed && !c.remoteReset
+}
+
+func (c *w12Conn) pullable() bool {
+	c.mu.Lock()
+	defer c.mu.Unlock()
+	return !c.fast && !c.dead && (len(c.buf) > 0 || c.window0)
 }
 
 func (c *w12Conn) reset() (unread int) {
@@ -464,6 +576,9 @@ func (w *w12World) dial(network, addr string, timeout time.Duration) (net.Conn, 
 	}
 	c := &w12Conn{w: w, addr: addr, cap: w.sockCap, fast: !st.newConnManual, everManual: st.newConnManual, lastIdx: -1}
 	c.cond = sync.NewCond(&c.mu)
+	if st.newConnManual {
+		c.pauses = append(c.pauses, w12Interval{w.now(), -1})
+	}
 	w.conns = append(w.conns, c)
 	w.mu.Unlock()
 	return c, nil
@@ -528,7 +643,7 @@ func (w *w12World) isFaultyNow() bool {
 	w.mu.Unlock()
 	for _, c := range conns {
 		c.mu.Lock()
-		bad := !c.localClosed && (c.remoteReset || !c.fast)
+		bad := !c.localClosed && (c.remoteReset || !c.fast || c.trapReport)
 		c.mu.Unlock()
 		if bad {
 			return true
@@ -679,6 +794,17 @@ func (w *w12World) observe() {
 			c.parseOff = endOff
 		}
 		flush()
+		if c.trapped != c.loggedTrapped {
+			c.loggedTrapped = c.trapped
+			r.Probe("report_write_held_by_closed_window")
+			r.Event("upstream", "t=%v c%d closed its receive window as a write-error report began (report write in progress)", w.now(), c.id)
+		}
+		for len(c.timeouts) > c.loggedTimeouts {
+			to := c.timeouts[c.loggedTimeouts]
+			c.loggedTimeouts++
+			r.Event("balancer", "t=%v c%d write timed out at t=%v (upstream not reading for %v of the last %v, blocked=%v report=%v pkt=%d)",
+				w.now(), c.id, to.t, to.paused, w.writeTimeout, to.blocked, to.report, to.idx)
+		}
 		if c.remoteReset && !c.loggedReset {
 			c.loggedReset = true
 		}
@@ -713,6 +839,10 @@ func (w *w12World) observe() {
 		}
 	}
 	w.mu.Unlock()
+	w.checkDropConservation()
+	if r.Failed() {
+		return
+	}
 	if we := w.eg.stats.writeErrors.Load(); we != w.lastWriteErr {
 		r.Event("balancer", "t=%v WriteErrors=%d", w.now(), we)
 		w.lastWriteErr = we
@@ -722,6 +852,66 @@ func (w *w12World) observe() {
 		w.lastReconErr = re
 	}
 	w.noteHealth()
+}
+
+// unread walks the frames a connection accepted that the upstream has not read (yet): workload
+// packet indexes, the sum of complete write-error reports, whether a torn non-workload frame (a
+// partly accepted report) or a tail too short to classify is among them. c.mu must be held.
+func (w *w12World) unread(c *w12Conn) (pkts []int, reports float64, tornReport, anon bool) {
+	off := c.parseOff
+	if !c.hsDone {
+		off = len(w.key)
+	}
+	for off < len(c.wr) {
+		rest := c.wr[off:]
+		if len(rest) < pktHeadLen+w12MinPayload {
+			anon = true
+			break
+		}
+		n := int(binary.LittleEndian.Uint32(rest))
+		if bytes.Equal(rest[pktHeadLen:pktHeadLen+4], w12Magic[:]) {
+			pkts = append(pkts, int(binary.LittleEndian.Uint32(rest[pktHeadLen+4:])))
+		} else if len(rest) >= pktHeadLen+n {
+			if v, err := w12ReportValue(rest[pktHeadLen : pktHeadLen+n]); err == nil {
+				reports += v
+			}
+		} else {
+			tornReport = true
+		}
+		off += pktHeadLen + n
+	}
+	return
+}
+
+// checkDropConservation (system quiescent): every dropped byte is in exactly one place: already read
+// by the upstream in a report, on its way (a report some connection accepted and the upstream has
+// not read, or a report whose write call is in progress), or still pending in the balancer's local
+// would-block counter. Only the lower bound is demanded here (a report that a failed connection
+// accepted in part is also pending again); nothing dropped may vanish from all three.
+func (w *w12World) checkDropConservation() {
+	if w.droppedCount == 0 {
+		return
+	}
+	pending := float64(w.eg.pool.primary.wouldBlockBytes.Load() + w.eg.pool.secondary.wouldBlockBytes.Load())
+	if w.reported+pending >= float64(w.droppedBodies) {
+		return
+	}
+	onTheWay := 0.0
+	for _, c := range w.connList() {
+		c.mu.Lock()
+		_, rep, torn, _ := w.unread(c)
+		onTheWay += rep
+		if c.curReportOn {
+			onTheWay += c.curReport
+		} else if torn {
+			onTheWay += float64(w.droppedFrames) // value unknown
+		}
+		c.mu.Unlock()
+	}
+	if w.reported+pending+onTheWay < float64(w.droppedBodies) {
+		w.fail("drop_reported", "vanished-from-counter", "%d packets (%d payload bytes) were dropped so far; the upstream has read reports for %v bytes, reports for %v more are on their way, the local would-block counter holds %v: the rest is nowhere and will never be reported",
+			w.droppedCount, w.droppedBodies, w.reported, onTheWay, pending)
+	}
 }
 
 func (w *w12World) bufFill(b *pktBuffer) (wi int, full bool) {
@@ -936,6 +1126,11 @@ func w12Run(r *verifsim.Run) {
 		w.eg, w.h = nil, nil
 	}()
 
+	{ // effective timeouts are needed by the connections from their first write on
+		eff := cfg
+		eff.fillDefaults()
+		w.reconnectDelay, w.dialTimeout, w.writeTimeout = eff.ReconnectDelay, eff.DialTimeout, eff.WriteTimeout
+	}
 	time.Sleep(time.Duration(preSleep) * time.Microsecond) // varies the address shuffle seed
 	w.faulty = append(w.faulty, w12Interval{0, -1})        // start-up counts as not yet healthy
 	w.eg = NewEgress(cfg)
@@ -967,6 +1162,7 @@ func w12Run(r *verifsim.Run) {
 		aAddr
 		aHeal
 		aDead
+		aTrap
 	)
 	for step := 0; step < nsteps && !r.Failed() && !w.disturbed; step++ {
 		acts := []int{aPush1, aSleep, aBurst, aPush1, aSleep, aBurst}
@@ -974,16 +1170,22 @@ func w12Run(r *verifsim.Run) {
 			if len(w.openConns()) > 0 {
 				acts = append(acts, aStall, aReset, aStall, aDead)
 			}
+			trappable := false
 			for _, cn := range w.openConns() {
-				cn.mu.Lock()
-				pending := !cn.fast && !cn.dead && len(cn.buf) > 0
-				cn.mu.Unlock()
-				if pending {
+				if cn.pullable() {
 					acts = append(acts, aPull, aPull)
 					break
 				}
 			}
+			for _, cn := range w.openConns() {
+				if cn.trappable() {
+					trappable = true
+				}
+			}
 			acts = append(acts, aHeal)
+			if trappable {
+				acts = append(acts, aTrap)
+			}
 		}
 		if faultClass >= 2 {
 			acts = append(acts, aAddr, aAddr)
@@ -995,7 +1197,7 @@ func w12Run(r *verifsim.Run) {
 			w.tick(0)
 		case aSleep:
 			d := w12Pick(r, "sleep", 300*time.Millisecond, time.Millisecond, 20*time.Millisecond, 1100*time.Millisecond,
-				2500*time.Millisecond, 6*time.Second, 17*time.Second, 35*time.Second)
+				2500*time.Millisecond, 6*time.Second, 17*time.Second, 35*time.Second, 4*time.Second, 10*time.Second)
 			r.Sched("sleep", "clock")
 			r.Event("clock", "t=%v sleep %v", w.now(), d)
 			w.tick(d + time.Duration(step+1)*time.Microsecond)
@@ -1056,11 +1258,9 @@ func w12Run(r *verifsim.Run) {
 		case aPull:
 			var cands []*w12Conn
 			for _, cn := range w.openConns() {
-				cn.mu.Lock()
-				if !cn.fast && !cn.dead && len(cn.buf) > 0 {
+				if cn.pullable() {
 					cands = append(cands, cn)
 				}
-				cn.mu.Unlock()
 			}
 			cn := cands[c.Intn(len(cands), "pull.conn")]
 			n := w12Pick(r, "pull.n", 1<<30, 1, 5, 64, 1000, 20000)
@@ -1093,6 +1293,21 @@ func w12Run(r *verifsim.Run) {
 				w.faultsFired++
 			}
 			r.Event("upstream", "t=%v %s now %s new_conns_stalled=%v", w.now(), a, []string{"up", "refusing", "blackholed"}[mode], manual)
+			w.noteHealth()
+			w.tick(0)
+		case aTrap:
+			var cands []*w12Conn
+			for _, cn := range w.openConns() {
+				if cn.trappable() {
+					cands = append(cands, cn)
+				}
+			}
+			cn := cands[c.Intn(len(cands), "trap.conn")]
+			r.Sched("trap", "upstream")
+			cn.arm(true)
+			r.Fault("upstream_window_closes_at_report")
+			w.faultsFired++
+			r.Event("upstream", "t=%v c%d will close its receive window when the next write-error report begins", w.now(), cn.id)
 			w.noteHealth()
 			w.tick(0)
 		case aHeal:
@@ -1139,6 +1354,7 @@ func (w *w12World) heal() {
 	}
 	w.mu.Unlock()
 	for _, cn := range w.openConns() {
+		cn.arm(false)
 		cn.setFast(true)
 	}
 	w.r.Event("upstream", "t=%v healed: all addresses up, all live connections read fast", w.now())
@@ -1169,27 +1385,16 @@ func (w *w12World) finalChecks() {
 				excused[idx] = true
 			}
 			// frames in wr beyond what was read
-			off := c.parseOff
-			if !c.hsDone {
-				off = len(w.key)
+			pkts, rep, torn, an := w.unread(c)
+			for _, idx := range pkts {
+				excused[idx] = true
 			}
-			for off < len(c.wr) {
-				rest := c.wr[off:]
-				if len(rest) < pktHeadLen+w12MinPayload {
-					anon++
-					break
-				}
-				n := int(binary.LittleEndian.Uint32(rest))
-				if bytes.Equal(rest[pktHeadLen:pktHeadLen+4], w12Magic[:]) {
-					excused[int(binary.LittleEndian.Uint32(rest[pktHeadLen+4:]))] = true
-				} else if len(rest) >= pktHeadLen+n {
-					if v, err := w12ReportValue(rest[pktHeadLen : pktHeadLen+n]); err == nil {
-						reportLost += v
-					}
-				} else {
-					reportLost += float64(w.droppedFrames) // a torn frame that is not a workload packet: a report, value unknown
-				}
-				off += pktHeadLen + n
+			reportLost += rep
+			if torn {
+				reportLost += float64(w.droppedFrames) // a torn frame that is not a workload packet: a report, value unknown
+			}
+			if an {
+				anon++
 			}
 		} else if c.parseOff != len(c.rd) && c.hsDone {
 			w.fail("stream_format", "torn-frame", "conn c%d (never stalled, never reset) ends with %d bytes of an incomplete frame", c.id, len(c.rd)-c.parseOff)
